@@ -306,6 +306,16 @@ func (c *SpecCtx) dbgValue(name string) ssa.Value {
 	return vs[len(vs)-1]
 }
 
+// renamed gives the current name of a local the contract names (rename inference, check.go).
+func (c *SpecCtx) renamed(name string) string {
+	if c.f != nil && len(c.f.dbg[name]) == 0 && c.fn != nil {
+		if nn := c.f.en.renames[funcKey(c.fn)][name]; nn != "" {
+			return nn
+		}
+	}
+	return name
+}
+
 func (c *SpecCtx) dbgDominating(name string) ssa.Value {
 	cur := c.evalBlock()
 	if cur == nil {
@@ -847,6 +857,11 @@ func (c *SpecCtx) evalBinary(x SBinary) Val {
 		return boolV(eq(c.evalBool(x.X), c.evalBool(x.Y)))
 	}
 	a, b := c.eval(x.X), c.eval(x.Y)
+	if (a.S == "Tuple") != (b.S == "Tuple") {
+		// e.g. "result == ..." after the function got a second result
+		c.errorf("a tuple of results is used as one value (in %s)", c.fnName())
+		return boolV("true")
+	}
 	a, b = c.unifyNil(a, b)
 	switch x.Op {
 	case "==":
@@ -1226,6 +1241,27 @@ func (c *SpecCtx) evalCall(x SCall) Val {
 		c.errorf("addr: no addressable local %s", x.Args[0])
 		return Val{S: "Ptr", E: nilPtr}
 	}
+	if x.Fn == "init" && len(x.Args) == 1 { // init(name): the value the local was declared with (before any reassignment)
+		if id, ok := x.Args[0].(SIdent); ok && c.f != nil {
+			if vs := c.f.dbg[c.renamed(id.Name)]; len(vs) > 0 {
+				v := vs[0]
+				ins, isIns := v.(ssa.Instruction)
+				cur := c.evalBlock()
+				if !isIns || cur == nil || ins.Block() == cur || ins.Block().Dominates(cur) {
+					if _, known := c.f.env[v]; known {
+						return c.f.env[v]
+					}
+					if k, isConst := v.(*ssa.Const); isConst {
+						return c.f.constVal(k)
+					}
+				}
+			}
+			c.errorf("unknown identifier %s (in %s)", id.Name, c.fnName())
+			return intV("0")
+		}
+		c.errorf("init takes a local name")
+		return intV("0")
+	}
 	if x.Fn == "defined" { // defined(name): the local name is in scope at the evaluation point
 		if id, ok := x.Args[0].(SIdent); ok && c.f != nil {
 			if _, bound := c.binds[id.Name]; bound {
@@ -1243,6 +1279,19 @@ func (c *SpecCtx) evalCall(x SCall) Val {
 			return boolV("false")
 		}
 		c.errorf("defined takes a local name")
+		return boolV("false")
+	}
+	if x.Fn == "hasmethod" && len(x.Args) == 2 { // hasmethod(T, Name): the method set of T (not of *T) holds Name
+		// decided by go/types: this is what makes a value of type T stored in an interface
+		// satisfy e.g. json.Marshaler (a pointer-receiver method is not in the set)
+		t, _ := c.resolveType(x.Args[0].String())
+		name := x.Args[1].String()
+		ms := types.NewMethodSet(t)
+		for i := 0; i < ms.Len(); i++ {
+			if ms.At(i).Obj().Name() == name {
+				return boolV("true")
+			}
+		}
 		return boolV("false")
 	}
 	if x.Fn == "box" { // box(T, v)
